@@ -16,6 +16,13 @@
 //	     this coinbase: fee aggregation, GetBlockDPOSReward, the coinbase check AND what
 //	     checkTxsContext does with its error (ChainParams.CheckRewardHeight set per op)
 //	     -> ok | err | panic
+//	gen <ntx> (utxo fee)*
+//	     a real regnet node (harness/regnet) at height 1 whose block 1 split the genesis output
+//	     into 8 outputs of 1000 ELA: each listed transfer spends one of them paying <fee>, goes
+//	     through the real TxPool.AppendToTxPool, then the real pow.Service.GenerateBlock assembles
+//	     block 2 (reward = fees + subsidy, AssignCoinbaseTxRewards), and the real checkTxsContext
+//	     (CheckRewardHeight = 0) validates it.  Pre-DPoS rule [0, H2).
+//	     -> "<ntx in block> <n> v1 a1 .. | <ctx> | <Σ tx.Fee()> <GetBlockDPOSReward>"
 //	asg <h> <active> <pow> <fees> <reward>
 //	     the real pow.Service.AssignCoinbaseTxRewards on the two-output coinbase of
 //	     CreateCoinbaseTx, then the real check on the result (dposReward as
@@ -31,6 +38,7 @@ import (
 	"strings"
 
 	"elaverif/harness/hx"
+	"elaverif/harness/regnet"
 
 	"github.com/elastos/Elastos.ELA/blockchain"
 	"github.com/elastos/Elastos.ELA/common"
@@ -47,6 +55,7 @@ import (
 	"github.com/elastos/Elastos.ELA/core/types/payload"
 	crstate "github.com/elastos/Elastos.ELA/cr/state"
 	"github.com/elastos/Elastos.ELA/dpos/state"
+	"github.com/elastos/Elastos.ELA/mempool"
 	"github.com/elastos/Elastos.ELA/pow"
 )
 
@@ -261,6 +270,111 @@ func execBlk(t []string) string {
 	return "ok"
 }
 
+// ---------------------------------------------------------------- real node, real block builder
+
+var (
+	rn        *regnet.Node
+	rnLedger  *blockchain.Ledger
+	rnFound   common.Uint168
+	splitTxID common.Uint256
+	rnDir     string
+)
+
+const splitValue = 1000 * 100000000
+
+func setupNode() {
+	if rn != nil {
+		return
+	}
+	setup()
+	myLedger, myFound := blockchain.DefaultLedger, blockchain.FoundationAddress
+	dir, err := os.MkdirTemp("", "c11node")
+	if err != nil {
+		panic("harness: " + err.Error())
+	}
+	rnDir = dir
+	n, err := regnet.NewNode(dir, regnet.Options{NoPoolEvents: true, Tweak: func(p *config.Configuration) {
+		p.PowConfiguration.CoinbaseMaturity = 0
+		p.CheckRewardHeight = 0
+	}})
+	if err != nil {
+		panic("harness: regnet: " + err.Error())
+	}
+	var outs []regnet.Out
+	for i := 0; i < 8; i++ {
+		outs = append(outs, regnet.Out{To: 1, Value: splitValue})
+	}
+	outs = append(outs, regnet.Out{To: 0, Value: 3300*10000*100000000 - 8*splitValue - 10000})
+	gcb := n.Genesis.Transactions[0].Hash()
+	split, err := n.Transfer(0, []common2.OutPoint{{TxID: gcb, Index: 0}}, outs, 1)
+	if err != nil {
+		panic("harness: split: " + err.Error())
+	}
+	b1, err := n.Mine(n.Genesis, []interfaces.Transaction{split})
+	if err != nil {
+		panic("harness: mine: " + err.Error())
+	}
+	if in, _, err := n.Deliver(b1); err != nil || !in {
+		panic(fmt.Sprint("harness: deliver block 1: ", err))
+	}
+	splitTxID = split.Hash()
+	rn = n
+	rnLedger, rnFound = blockchain.DefaultLedger, blockchain.FoundationAddress
+	blockchain.DefaultLedger, blockchain.FoundationAddress = myLedger, myFound
+}
+
+func execGen(t []string) string {
+	setupNode()
+	myLedger, myFound, myParams := blockchain.DefaultLedger, blockchain.FoundationAddress, config.DefaultParams
+	blockchain.DefaultLedger, blockchain.FoundationAddress, config.DefaultParams = rnLedger, rnFound, *rn.Params
+	defer func() {
+		blockchain.DefaultLedger, blockchain.FoundationAddress, config.DefaultParams = myLedger, myFound, myParams
+	}()
+	rn.Chain.UTXOCache.CleanCache()
+	ntx, _ := strconv.Atoi(t[1])
+	pool := mempool.NewTxPool(rn.Params, rn.Chain.CkpManager)
+	for i := 0; i < ntx; i++ {
+		idx, _ := strconv.Atoi(t[2+2*i])
+		fee := f64(t[3+2*i])
+		tx, err := rn.Transfer(1, []common2.OutPoint{{TxID: splitTxID, Index: uint16(idx)}},
+			[]regnet.Out{{To: 2, Value: splitValue - fee}}, uint64(100+i))
+		if err != nil {
+			panic("harness: transfer: " + err.Error())
+		}
+		pool.AppendToTxPoolWithoutEvent(tx) // rejected ones simply do not make it into the block
+	}
+	svc := pow.NewService(&pow.Config{PayToAddr: rn.Accounts[3].Address, Chain: rn.Chain, ChainParams: rn.Params,
+		TxMemPool: pool, Arbitrators: rn.Arbiters})
+	blk, err := svc.GenerateBlock(rn.Accounts[3].Address, 1000)
+	if err != nil {
+		return "generate-error"
+	}
+	name := func(u common.Uint168) string {
+		switch {
+		case u.IsEqual(rn.Addr(0)):
+			return "fnd"
+		case u.IsEqual(rn.Addr(3)):
+			return "min"
+		}
+		return "o9"
+	}
+	var b strings.Builder
+	cb := blk.Transactions[0]
+	fmt.Fprintf(&b, "%d %d", len(blk.Transactions)-1, len(cb.Outputs()))
+	for _, o := range cb.Outputs() {
+		fmt.Fprintf(&b, " %d %s", int64(o.Value), name(o.ProgramHash))
+	}
+	ctx := "ok"
+	if err := rn.Chain.VerifCheckTxsContext(blk); err != nil {
+		ctx = "err"
+	}
+	fees := common.Fixed64(0)
+	for _, tx := range blk.Transactions {
+		fees += tx.Fee()
+	}
+	return fmt.Sprintf("%s | %s | %d %d", b.String(), ctx, int64(fees), int64(rn.Chain.GetBlockDPOSReward(blk)))
+}
+
 func safe(f func() error) (err error) {
 	defer func() {
 		if e := recover(); e != nil {
@@ -311,6 +425,8 @@ func exec(t []string) string {
 		return execAsg(t)
 	case "blk":
 		return execBlk(t)
+	case "gen":
+		return execGen(t)
 	}
 	panic("harness: unknown op " + t[0])
 }
@@ -502,6 +618,37 @@ func gen(g *hx.Gen) {
 		}
 		g.Emit("blk %d %d %d %d %d %s", h, active, powMode, crh, int64(reward), b.String())
 	}
+	// real block builder on a real node
+	ng := g.N(120, 1500)
+	for i := 0; i < ng; i++ {
+		k := r.Intn(9)
+		perm := []int{0, 1, 2, 3, 4, 5, 6, 7}
+		for j := range perm {
+			q := r.Intn(j + 1)
+			perm[j], perm[q] = perm[q], perm[j]
+		}
+		var b strings.Builder
+		fmt.Fprintf(&b, "gen %d", k)
+		for j := 0; j < k; j++ {
+			var fee int64
+			switch r.Intn(8) {
+			case 0:
+				fee = 99 // below MinTransactionFee: the pool refuses it
+			case 1:
+				fee = 100
+			case 2:
+				fee = splitValue // everything is fee: zero-value output
+			case 3:
+				fee = splitValue + 1 // negative output: refused
+			case 4:
+				fee = int64(r.Intn(1000))
+			default:
+				fee = int64(r.Intn(100000)) * int64(1+r.Intn(1000))
+			}
+			fmt.Fprintf(&b, " %d %d", perm[j], fee)
+		}
+		g.Emit("%s", b.String())
+	}
 	na := g.N(3000, 150000)
 	for i := 0; i < na; i++ {
 		active := uint32(1000000 + r.Intn(400000))
@@ -610,6 +757,43 @@ func oracle(t []string, out string) *hx.Violation {
 				return &hx.Violation{Kind: "coinbase-share-rounding", Detail: "share differs from the exact ceiling by more than one sela"}
 			}
 		}
+	case "gen":
+		// the node's own block builder must produce a block the node's validator accepts; the two fee
+		// sums the validator uses (Σ GetTxFee for the coinbase total, Σ tx.Fee() for the DPoS share)
+		// must be the fees the transactions really pay; the coinbase pays subsidy + those fees
+		f := strings.Fields(out)
+		if len(f) < 6 {
+			return &hx.Violation{Kind: "builder-failed", Detail: out}
+		}
+		nIn, _ := strconv.Atoi(f[0])
+		nOut, _ := strconv.Atoi(f[1])
+		ntx, _ := strconv.Atoi(t[1])
+		want := int64(0)
+		acc := 0
+		for i := 0; i < ntx; i++ {
+			fee, _ := strconv.ParseInt(t[3+2*i], 10, 64)
+			if fee >= 100 && fee <= splitValue {
+				want += fee
+				acc++
+			}
+		}
+		sum := int64(0)
+		for i := 0; i < nOut; i++ {
+			v, _ := strconv.ParseInt(f[2+2*i], 10, 64)
+			sum += v
+		}
+		rest := f[2+2*nOut:]
+		if len(rest) != 5 || rest[1] != "ok" {
+			return &hx.Violation{Kind: "builder-rejected", Detail: "GenerateBlock built a block that checkTxsContext rejects: " + out}
+		}
+		fees, _ := strconv.ParseInt(rest[3], 10, 64)
+		subsidy := int64(rn.Params.GetBlockReward(2))
+		if nIn != acc || fees != want {
+			return &hx.Violation{Kind: "block-fee-sum", Detail: fmt.Sprintf("block carries %d txs with Σ tx.Fee() = %d, the transactions pay %d in %d txs", nIn, fees, want, acc)}
+		}
+		if sum != subsidy+want {
+			return &hx.Violation{Kind: "coinbase-total", Detail: fmt.Sprintf("coinbase pays %d, subsidy %d + fees %d", sum, subsidy, want)}
+		}
 	case "asg":
 		// a coinbase built by the node's own block builder must pass the node's check (dpos share > 0)
 		if strings.HasSuffix(out, "| ok") || out == "legacy" {
@@ -643,6 +827,10 @@ func bucket(t []string, out string) string {
 
 func main() {
 	hx.Main(&hx.Prop{Name: "C11", Gen: gen, Exec: exec, Oracle: oracle, Nontrivial: nontrivial, Bucket: bucket})
+	if rn != nil {
+		rn.Close()
+		os.RemoveAll(rnDir)
+	}
 	if ready {
 		chain.GetDB().Close()
 		os.RemoveAll(params.DataDir)
